@@ -28,8 +28,17 @@ func main() {
 		os.Exit(cmdReplay(os.Args[2:]))
 	case "selftest":
 		os.Exit(cmdSelftest(os.Args[2:]))
+	case "cross":
+		os.Exit(cmdCross(os.Args[2:]))
 	case "seeds":
 		os.Exit(cmdSeeds(os.Args[2:]))
+	case "flows":
+		p, err := load.Load(load.Config{Dir: "/repo"})
+		if err != nil {
+			fmt.Fprintln(os.Stderr, err)
+			os.Exit(2)
+		}
+		fmt.Println(rules.DumpFlowsJSON(p))
 	case "tierb":
 		p, err := load.Load(load.Config{Dir: "/repo"})
 		if err != nil {
